@@ -16,7 +16,9 @@ Judged (see DESIGN 4.2):
   J3  once faults stop, one clean final importer succeeds with the reference
       table and the file at the cache path is complete afterwards (unless the
       inode it read was multi-writer mixed content, which is outside the
-      states the property lists and is only counted).
+      states the property lists and is only counted);
+  J4  a fault-free run in which every importer completed leaves a complete
+      cache behind, before any further import could repair it.
 """
 import builtins
 import errno
@@ -225,7 +227,10 @@ class SimDisk:
     # --- path level operations
     def open(self, imp, path, mode="r", *a, **k):
         if isinstance(path, int):
-            return self.fds[path]
+            f = self.fds[path]
+            if "b" not in mode:
+                return io.TextIOWrapper(_Raw(f), write_through=True)
+            return f
         p = self.norm(path)
         self.op(imp, "open:" + mode.replace("b", ""), p, None)
         ino = self.paths.get(p)
@@ -249,7 +254,7 @@ class SimDisk:
             if ino is None:
                 ino = self.paths[p] = Inode(owner=imp)
         if "b" not in mode:
-            return io.TextIOWrapper(_Raw(SimFile(self, ino, mode, imp, p)))
+            return io.TextIOWrapper(_Raw(SimFile(self, ino, mode, imp, p)), write_through=True)
         return SimFile(self, ino, mode, imp, p)
 
     def process_gone(self, imp):
@@ -380,10 +385,11 @@ class Sched:
 
 
 class Importer(threading.Thread):
-    def __init__(self, imp, sched, tz_path, result):
+    def __init__(self, imp, sched, tz_path, result, build_env=False):
         super().__init__(name="importer-%d" % imp, daemon=True)
         self.sim_importer = imp
         self.sched, self.tz_path, self.result = sched, tz_path, result
+        self.build_env = build_env
 
     def run(self):
         imp = self.sim_importer
@@ -393,6 +399,12 @@ class Importer(threading.Thread):
         try:
             if g and g[0] == "crash":
                 raise SimCrash("crash at start")
+            # this importer's environment: the module body reads it before its first disk
+            # operation, i.e. before the next yield point, so setting it here is race free
+            if self.build_env:
+                os.environ["BUILD_TZ_CACHE"] = "1"
+            else:
+                os.environ.pop("BUILD_TZ_CACHE", None)
             name = "dateparser._c19_importer_%d_%d" % (os.getpid(), imp)
             spec = importlib.util.spec_from_file_location(name, self.tz_path)
             mod = importlib.util.module_from_spec(spec)
@@ -412,7 +424,8 @@ class Importer(threading.Thread):
 def install_patches(disk):
     """Route file access of importer threads that targets the cache directory to
     the SimDisk; everything else goes to the real functions."""
-    real = {"open": builtins.open, "io_open": io.open, "os_open": os.open, "os_close": os.close, "os_write": os.write, "os_read": os.read,
+    real = {"listdir": os.listdir, "scandir": os.scandir, "kill": os.kill,
+            "open": builtins.open, "io_open": io.open, "os_open": os.open, "os_close": os.close, "os_write": os.write, "os_read": os.read,
             "replace": os.replace, "rename": os.rename, "remove": os.remove, "unlink": os.unlink, "stat": os.stat, "lstat": os.lstat,
             "fstat": os.fstat, "fsync": os.fsync, "getpid": os.getpid, "link": os.link, "chmod": os.chmod, "fdopen": os.fdopen}
 
@@ -493,6 +506,89 @@ def install_patches(disk):
             return None
         return real["chmod"](path, *a, **k)
 
+    def is_datadir(path):
+        try:
+            p = os.fspath(path)
+        except TypeError:
+            return False
+        if isinstance(p, bytes):
+            p = os.fsdecode(p)
+        return os.path.normpath(os.path.join(os.getcwd(), p)) == disk.datadir or os.path.realpath(p) == disk.datadir
+
+    def sim_names():
+        base = [fn for fn in real["listdir"](disk.datadir) if fn.endswith(".py") or fn in ("date_translation_data", "__pycache__")]
+        return sorted(base + [os.path.basename(k) for k in disk.paths])
+
+    def p_listdir(path="."):
+        imp = me()
+        if imp is not None and is_datadir(path):
+            disk.op(imp, "listdir", "DIR", None)
+            return sim_names()
+        return real["listdir"](path)
+
+    class _Entry:
+        def __init__(self, d, name):
+            self.name, self.path = name, os.path.join(d, name)
+
+        def is_file(self, follow_symlinks=True):
+            return self.path in disk.paths or os.path.isfile(self.path)
+
+        def is_dir(self, follow_symlinks=True):
+            return self.path not in disk.paths and os.path.isdir(self.path)
+
+        def is_symlink(self):
+            return False
+
+        def stat(self, follow_symlinks=True):
+            return os.stat(self.path)
+
+        def inode(self):
+            return 0
+
+        def __fspath__(self):
+            return self.path
+
+    class _Scan:
+        def __init__(self, entries):
+            self.it = iter(entries)
+
+        def __iter__(self):
+            return self.it
+
+        def __next__(self):
+            return next(self.it)
+
+        def __enter__(self):
+            return self
+
+        def __exit__(self, *a):
+            return False
+
+        def close(self):
+            pass
+
+    def p_scandir(path="."):
+        imp = me()
+        if imp is not None and is_datadir(path):
+            disk.op(imp, "listdir", "DIR", None)
+            d = os.fspath(path)
+            return _Scan([_Entry(d, n) for n in sim_names()])
+        return real["scandir"](path)
+
+    def p_kill(pid, sig):
+        imp = me()
+        if imp is not None and 40000 <= pid < 40100:
+            other = pid - 40000
+            disk.op(imp, "kill0", "PID%d" % other, None)
+            st = disk.sched.state.get(other)
+            if st in ("crashed", "raised", "done") or st is None:
+                raise ProcessLookupError(errno.ESRCH, os.strerror(errno.ESRCH))
+            return None
+        return real["kill"](pid, sig)
+
+    os.listdir = p_listdir
+    os.scandir = p_scandir
+    os.kill = p_kill
     builtins.open = p_open
     io.open = p_open
     os.open = p_os_open
@@ -544,8 +640,6 @@ def run_schedule(p):
     # complete content a repaired installation would hold (for seeding prefixes of it)
     rng = seeds.rng_for(p["seed"], PROP, "b:%s" % p["run"])
     cfg = p["cfg"]
-    if cfg["build_env"]:
-        os.environ["BUILD_TZ_CACHE"] = "1"
     sched = Sched(rng, p.get("plan"), cfg["faults"])
     datadir = os.path.dirname(cache)
     disk = SimDisk(datadir, sched)
@@ -575,7 +669,8 @@ def run_schedule(p):
         sched.sems[i] = threading.Semaphore(0)
         sched.state[i] = "ready"
         sched.pending[i] = ("start", "-", None)
-        th = Importer(i, sched, tz_path, results)
+        be = cfg.get("build_envs")
+        th = Importer(i, sched, tz_path, results, build_env=(be[i] if be and i < len(be) else cfg["build_env"]))
         importers[i] = th
         th.start()
 
@@ -629,7 +724,11 @@ def run_schedule(p):
                     i = runnable[rng.randrange(len(runnable))]
                 fault = None
                 op = sched.pending.get(i, ("start", "-", None))[0]
-                if cfg["faults"] and sched.fault_budget < cfg["max_faults"] and rng.random() < cfg["fault_rate"]:
+                # faults are biased to land right after an importer created / opened something for
+                # writing (in-flight state: lock files, temp files), where a uniform draw rarely falls
+                prev = next((t for t in reversed(trace) if t[0] == i), None)
+                hot = prev is not None and (prev[1].startswith("open:") and prev[1] != "open:r")
+                if cfg["faults"] and sched.fault_budget < cfg["max_faults"] and rng.random() < (min(0.6, cfg["fault_rate"] * 6) if hot else cfg["fault_rate"]):
                     kinds = ["crash"]
                     if op == "write":
                         kinds += ["torn", "torn", "enospc", "eio"]
@@ -639,7 +738,17 @@ def run_schedule(p):
                         fault = (k, rng.randrange(1 << 20))
                         sched.fault_budget += 1
             step(i, fault)
-        # faults have stopped; everyone has finished.  One clean importer.
+        # faults have stopped; everyone has finished.
+        data_q, ino_q = file_bytes(disk)
+        quiescent = {"present": data_q is not None}
+        if data_q is not None:
+            try:
+                pickle.loads(data_q)
+                quiescent["complete"] = True
+            except BaseException as e:  # noqa
+                quiescent["complete"] = False
+                quiescent["why"] = type(e).__name__
+        # One clean importer.
         final_id = n_imp
         start(final_id)
         guard = 0
@@ -656,6 +765,7 @@ def run_schedule(p):
         os.open, os.close, os.write, os.read = real["os_open"], real["os_close"], real["os_write"], real["os_read"]
         os.replace, os.rename, os.remove, os.unlink = real["replace"], real["rename"], real["remove"], real["unlink"]
         os.stat, os.lstat, os.fstat, os.fsync, os.getpid, os.link, os.chmod = real["stat"], real["lstat"], real["fstat"], real["fsync"], real["getpid"], real["link"], real["chmod"]
+        os.listdir, os.scandir, os.kill = real["listdir"], real["scandir"], real["kill"]
     complete = {"ok": False, "why": "missing"}
     if data_after is not None:
         try:
@@ -675,7 +785,7 @@ def run_schedule(p):
         bypass = f.read() != shipped
     extra_files = sorted(fn for fn in os.listdir(datadir) if not fn.endswith(".py") and fn not in ("date_translation_data", "__pycache__", "dateparser_tz_cache.pkl"))
     return {
-        "run": p["run"], "cfg": cfg, "trace": trace, "decisions": decisions, "results": results, "faulted": sorted(faulted),
+        "quiescent": quiescent, "run": p["run"], "cfg": cfg, "trace": trace, "decisions": decisions, "results": results, "faulted": sorted(faulted),
         "tainted": sorted(disk.reads_mixed), "final_id": final_id, "complete": complete, "final_mixed": bool(ino_after and ino_after.mixed),
         "disk_ops": disk.nops, "fired": sched.fired, "bypass": bypass or bool(extra_files), "extra_files": extra_files,
         "sim_files": sorted(sched._fname(os.path.basename(k)) for k in disk.paths),
@@ -694,6 +804,14 @@ def judge(res, ref):
         elif r["status"] == "ok" and imp not in res["tainted"]:
             if r["table"] != ref["table"] or r["probe"] != ref["probe"]:
                 bad.append(("J3-final-table-differs" if final else "J2-table-differs", "importer %d" % imp))
+    # J4: a fault-free run in which every importer completed must leave a complete cache behind
+    # ("afterwards the cache on disk is complete again"), before any further import repairs it
+    if not res["fired"] and all(r["status"] == "ok" for i, r in res["results"].items() if i != res["final_id"]):
+        q = res.get("quiescent") or {}
+        if not q.get("present"):
+            bad.append(("J4-no-cache-after-all-imports-finished", ""))
+        elif not q.get("complete"):
+            bad.append(("J4-cache-incomplete-after-all-imports-finished", q.get("why")))
     fin = res["results"].get(res["final_id"])
     if fin and fin["status"] == "ok" and res["final_id"] not in res["tainted"] and not res["final_mixed"]:
         if not res["complete"]["ok"]:
@@ -725,6 +843,7 @@ def draw_cfg(rng, tier):
         "stickiness": rng.choice([0.0, 0.5, 0.8, 0.95]),
         "init": init,
         "build_env": rng.random() < 0.25,
+        "build_envs": [rng.random() < 0.3 for _ in range(n + 1)] if rng.random() < 0.4 else None,
         "max_ops": 400,
     }
 
